@@ -2,3 +2,6 @@ import SuxModel.Props.C10
 #print axioms Sux.BFV.copy_correct
 #print axioms Sux.BFV.copy_vals
 #print axioms Sux.BFV.copy_width_zero_panics
+#print axioms Sux.BFV.apply_correct
+#print axioms Sux.BFV.apply_correct_pow2
+#print axioms Sux.BFV.unaligned_eq_get
